@@ -3,7 +3,8 @@ import AlgoVerif.Model.C04Run
 Line-protocol component for C04 (keys and values are `Int`, `eqVal` is `==`).
 
 Header: `comp=binary|binomial|fibonacci ori=min|max|half|minraw|min7|maxraw size=<n>` (`size` only for `binary`;
-`minraw` = `a-b`, `min7` = `7*(a-b)`, `maxraw` = `b-a`: comparators that are not normalised to -1/0/+1).
+`minraw` = `a-b`, `min7` = `7*(a-b)`, `maxraw` = `b-a`: comparators that are not normalised to -1/0/+1), optionally
+`oris=a,b,c` (mergeable heaps: heap `r` of the family is built with comparator `r mod 3` of the list; `ImplC.run`).
 Ops (every heap op names its register; `binary` has register 0 only):
 
     ins r k v | del r | peek r | clear r | size r | empty r | hask r k | hasv r v | dump r
@@ -16,14 +17,24 @@ open AlgoVerif AlgoVerif.C04
 
 def eqI (a b : Int) : Bool := a == b
 
-def cmpOf (hdr : List String) : Int → Int → Int :=
-  match headerGet hdr "ori" with
+def cmpNamed : Option String → Int → Int → Int
   | some "max" => cmpDesc
   | some "half" => cmpHalf
   | some "minraw" => cmpSub
   | some "min7" => cmpSub7
   | some "maxraw" => cmpRevSub
   | _ => cmpAsc
+
+def cmpOf (hdr : List String) : Int → Int → Int := cmpNamed (headerGet hdr "ori")
+
+/-- `oris=a,b,c`: heap `r` of the family is built with comparator number `r mod 3` of the list (absent: every heap
+with `ori`) -/
+def cmpsOf (hdr : List String) : Nat → Int → Int → Int :=
+  match headerGet hdr "oris" with
+  | some l =>
+    let names := (l.splitOn ",").toArray
+    if names.size = 0 then fun _ => cmpOf hdr else fun r => cmpNamed names[r % names.size]?
+  | none => fun _ => cmpOf hdr
 
 def showOut : Out Int Int → String
   | .unit => "ok"
@@ -77,7 +88,10 @@ def runBinary (cmp : Int → Int → Int) (size : Nat) (ops : List String) : Lis
     | _ =>
       match parseOp ws with
       | some (0, op) =>
-        match Binary.step cmp eqI h op with
+        -- hand the state over (no second reference is kept), so that the arrays are updated in place
+        let cur := h
+        h := { n := 0, heap := #[] }
+        match Binary.step cmp eqI cur op with
         | .ok (h', o) => h := h'; out := out.push (showOut o)
         | .panic => dead := true; out := out.push "panic"
         | .diverge => dead := true; out := out.push "hang"
@@ -98,7 +112,8 @@ def maxdegBreaks (lo hi : Nat) : String := Id.run do
       last := some v
   return "ok " ++ " ".intercalate parts.toList
 
-def runMergeable (I : Impl Int Int) (dump : I.σ → String) (fib : Bool) (ops : List String) : List String := Id.run do
+def runMergeable (I : ImplC Int Int) (cmps : Nat → Int → Int → Int) (dump : I.σ → String) (fib : Bool)
+    (ops : List String) : List String := Id.run do
   let mut regs : Array I.σ := #[]
   let mut dead := false
   let mut out : Array String := #[]
@@ -125,7 +140,7 @@ def runMergeable (I : Impl Int Int) (dump : I.σ → String) (fib : Bool) (ops :
         if d = s then out := out.push "ok"   -- `hh != h` fails: nothing happens
         else
           while regs.size ≤ max d s do regs := regs.push I.init
-          match I.merge (regs.getD d I.init) (regs.getD s I.init) with
+          match I.merge (cmps d) (regs.getD d I.init) (regs.getD s I.init) with
           | .ok p => regs := (regs.setIfInBounds d p.1).setIfInBounds s p.2; out := out.push "ok"
           | .panic => dead := true; out := out.push "panic"
           | .diverge => dead := true; out := out.push "hang"
@@ -134,7 +149,7 @@ def runMergeable (I : Impl Int Int) (dump : I.σ → String) (fib : Bool) (ops :
       match parseOp ws with
       | some (r, op) =>
         while regs.size ≤ r do regs := regs.push I.init
-        match I.step (regs.getD r I.init) op with
+        match I.step (cmps r) (regs.getD r I.init) op with
         | .ok (h', o) => regs := regs.setIfInBounds r h'; out := out.push (showOut o)
         | .panic => dead := true; out := out.push "panic"
         | .diverge => dead := true; out := out.push "hang"
@@ -145,8 +160,8 @@ def runCase (hdr : List String) (ops : List String) : List String :=
   let cmp := cmpOf hdr
   match headerGet hdr "comp" with
   | some "binary" => runBinary cmp (headerNat hdr "size" 0) ops
-  | some "binomial" => runMergeable (binomialImpl cmp eqI) dumpBinomial false ops
-  | some "fibonacci" => runMergeable (fibImpl cmp eqI) dumpFib true ops
+  | some "binomial" => runMergeable (binomialImplC eqI) (cmpsOf hdr) dumpBinomial false ops
+  | some "fibonacci" => runMergeable (fibImplC eqI) (cmpsOf hdr) dumpFib true ops
   | _ => ops.map fun _ => "bad-case"
 
 end AlgoVerif.C04.Driver
